@@ -45,14 +45,14 @@ check('C15', 'Hypothesis-generated texts supplied in every input form, different
       'hypothesis-sharded',
       'Each sampled text is supplied as str (with/without final newline), list / tuple / iterator of lines with and without terminators, '
       'StringIO, real file object, in-process CLI and (batched) a real python -m mistletoe subprocess on 1..8 files; all outputs must be byte-identical.',
-      'Domain restricted to \\n-terminated text as the property states. Sampling only.',
+      'Domain: \\n is the only line terminator (the characters at which str.splitlines splits but file iteration does not are excluded); NUL and other control characters are in. Sampling only.',
       'DESIGN.md 5/C15')
 
 check('C18', 'Hypothesis-generated inputs meeting each side condition; differential comparison of contrib renderer output with HtmlRenderer output',
       'hypothesis-sharded',
       'For sampled inputs that do not use the respective extension, Toc/GithubWiki/MathJax/Pygments output must equal HtmlRenderer output '
       'byte for byte under the same options (MathJax minus its script line).',
-      'Sampling only; side conditions evaluated on the input text and on the HtmlRenderer parse.',
+      'Sampling only; side conditions as stated ([[ .. | .. ]] in this order anywhere in the text; two or more $; a code block in the HtmlRenderer parse).',
       'DESIGN.md 5/C18')
 
 check('C17', 'Hypothesis-generated hostile and pooled inputs; LaTeX output scanner (groups, environments, verbatim regions, escape forms) plus skeleton invariance under text neutralisation',
@@ -67,7 +67,7 @@ check('C17', 'Hypothesis-generated hostile and pooled inputs; LaTeX output scann
 check('C14', 'Hypothesis-generated paragraphs from a tricky-token vocabulary, filtered by an independent spec-derived inertness predicate; exact-output oracle',
       'hypothesis-sharded',
       'Paragraphs of 1-4 lines assembled from ~190 tricky-but-inert tokens, or from tokens composed freely out of letter runs, digit runs and any ASCII / Unicode punctuation, are kept when an own predicate (block-start patterns per line, '
-      'inline triggers over the paragraph, emphasis by the independent model) proves them inert; HtmlRenderer output must then be exactly '
+      'inline triggers over the paragraph, emphasis by the independent model) proves them inert; lines may be indented (continuation lines by four or more columns); HtmlRenderer output must then be exactly '
       '<p>escaped text</p>.',
       'Sampling only. The predicate is conservative (discards what it cannot prove inert; discard counts are in the evidence).',
       'DESIGN.md 5/C14')
@@ -75,7 +75,7 @@ check('C14', 'Hypothesis-generated paragraphs from a tricky-token vocabulary, fi
 check('C11', 'bounded exhaustive operation histories + Hypothesis-drawn histories + hypothesis.stateful RuleBasedStateMachine, with fault injection at every token-list position; fresh-interpreter baseline as reference model',
       'enumeration-pool + hypothesis-sharded (stateful)',
       'Histories over {use renderer, enter/render/exit, a documented refusal half-way through rendering, parse that raises inside a custom block/span token at every list position, bare '
-      'parse, Scheme} are executed in-process; after every step the token lists must equal the defaults and a battery of 13 probe documents '
+      'parse, Scheme} are executed in-process; after every step the token lists must equal the defaults and a battery of 24 probe documents (ten of them put one string into every syntactic context that processes it, to expose state keyed by content) '
       '(HtmlRenderer output + dump of a bare parse) and the operation\'s own output must equal reference values, each computed in its own pristine process. '
       'All length-2 histories over the full alphabet and all length-4 (5 thorough) histories over 8 state-touching operations are enumerated.',
       'Leaks are visible only through the probe battery and token lists; longer histories are sampled, not enumerated.',
@@ -92,7 +92,7 @@ check('C16', 'complete pair table of synthetic custom span tokens (Allen relatio
 
 check('C04', 'Hypothesis-generated texts; metamorphic relation between the parse of a text and of its block-quote / list-item embedding',
       'hypothesis-sharded',
-      'For sampled tab-free texts the own dump of Document(embed(t)) must equal the dump of Document(t) wrapped in one Quote, resp. one '
+      'For sampled texts (tabs only as content, directly after a letter) the own dump of Document(embed(t)) must equal the dump of Document(t) wrapped in one Quote, resp. one '
       'single-item List whose leader, content offset and start are as written; link definitions must be unchanged. Marker spelling '
       '(>, "> ", 0-3 spaces; -, +, *, N., N) with 1-4 spaces) is drawn per case.',
       'Sampling only; line numbers set aside (C13).',
@@ -108,7 +108,7 @@ check('C05', 'Hypothesis-generated pairs of texts; metamorphic relation AST(A + 
 check('C03', 'Hypothesis choice tapes decoded into model trees of CommonMark/GFM constructs with free spelling; oracle = HTML written directly from the tree, compared under the spec normaliser',
       'hypothesis-sharded',
       'Each tape is decoded into a tree (all block and inline constructs of the statement, depth <= 4, <= 40 blocks) whose spelling choices '
-      '(indentation, markers, padding, fences, closing #, > with/without space, lazy lines, optional blank lines) are drawn as well; the '
+      '(indentation, markers incl. leading zeros and per-item indentation, padding, tabs at column 0, fences, closing #, > with/without space, lazy lines, optional and whitespace-only blank lines, table pipes and padding, multi-line titles) are drawn as well; paragraphs of raw delimiter runs are read by the emphasis model; the '
       'Markdown written from it must render to the HTML written from the tree by independent code. A curated list of hand-derived pairs '
       '(regressions of repaired defects) is enumerated too.',
       'Sound only as far as the writer is (it writes only spellings the specification makes unambiguous; see DESIGN.md 3/G4). Seven recorded '
@@ -133,7 +133,7 @@ check('C07', 'Hypothesis choice tapes decoded into G4 documents in reference mod
 
 check('C19', 'Hypothesis choice tapes decoded into G4 documents with outline-shaped headings x TocRenderer options; expected outline computed from the model',
       'hypothesis-sharded',
-      'Headings (ATX and setext, top level and inside containers, plain-word titles with optional inline markup) form an outline; depth, '
+      'Headings (ATX and setext, top level and inside containers; titles of words, punctuation, HTML-significant characters, character references, escapes and code spans that look like markup) form an outline; depth, '
       'omit_title, filter predicates and the shallowest level are drawn; the walk of renderer.toc must list exactly the qualifying headings '
       'of the model, in order, nested by level relative to the shallowest qualifying level.',
       'Sampling only; cases without a qualifying heading or whose qualifying headings are not an outline are skipped and counted.',
@@ -152,7 +152,7 @@ check('C09', 'round-trip oracle (parse -> MarkdownRenderer -> parse) over Hypoth
 check('C10', 'Hypothesis-generated G4 documents over a reflow-safe vocabulary x line length L; metamorphic oracles: whitespace-normalised HTML and definitions unchanged, unbreakable blocks unchanged, line-length rule, idempotence',
       'hypothesis-sharded + enumeration-pool',
       'Each generated document (containers to depth 4, emphasis, code spans, links, images, hard breaks, definitions) is reflowed with a '
-      'drawn L in 1..120; the result must parse to the same whitespace-normalised HTML and definitions, leave code / HTML blocks, tables and '
+      'drawn L in 1..120, with normalize_whitespace on in a third of the cases; the result must parse to the same whitespace-normalised HTML and definitions, leave code / HTML blocks, tables and '
       'ATX headings untouched, have no breakable space on any line longer than L, and be a fixed point of the same reflow. Hand-written '
       'documents are swept over every L in 1..60.',
       'Domain excludes words / constructs that become block markers at a line start, character references, code spans with edge or '
